@@ -42,13 +42,13 @@ func main() {
 	manifest := flag.Bool("manifest", false, "write MANIFEST.json from the rule tables")
 	doWarm := flag.Bool("warm", false, "load every root set once (warms the build cache)")
 	noEvidence := flag.Bool("no-evidence", false, "do not write evidence (self-test runs)")
-	genLocals := flag.Bool("gen-localnames", false, "maintenance: regenerate checker/localnames.json from -repo")
+	genLocals := flag.Bool("gen-refnames", false, "maintenance: regenerate checker/refnames.json from -repo")
 	flag.Parse()
 	os.Setenv("PATH", "/opt/veriftools/go1.26.8/bin:"+os.Getenv("PATH"))
 	repoDir = *repo
 	verifDirGuess = *verif
 	if *genLocals {
-		os.Exit(genLocalNames(*verif))
+		os.Exit(genRefNames(*verif))
 	}
 	if *manifest {
 		if err := writeManifest(*verif); err != nil {
